@@ -1,6 +1,7 @@
 #!/usr/bin/env python3
 """Builds the detection tables (DESIGN.md section 13) from the outputs of selftest/run.py.
-usage: mk_tables.py <mutants.json out> <seeded.json out> <neutral.json out>  > selftest/DETECTION.md"""
+usage: mk_tables.py <mutants out> <seeded out>[,<seeded out 2>...] <neutral out> [<old-checks seeded out>[,...]]  > selftest/DETECTION.md
+(several seeded outputs are merged; a later file overrides an earlier one per seed and check)"""
 import json, sys, os
 VERIF = os.path.dirname(os.path.dirname(os.path.abspath(__file__)))
 mut_spec = {m["id"]: m for m in json.load(open(os.path.join(VERIF, "selftest/mutants.json")))["mutants"]}
@@ -11,7 +12,17 @@ def load(p):
     except Exception:
         return []
 
-mut, seeded, neutral = load(sys.argv[1]), load(sys.argv[2]), load(sys.argv[3])
+def load_merged(arg):
+    merged = {}
+    for f in arg.split(","):
+        for r in load(f):
+            if "checks" not in r:
+                continue
+            merged.setdefault(r["id"], {"id": r["id"], "checks": {}})["checks"].update(r["checks"])
+    return [merged[k] for k in sorted(merged)]
+
+mut, seeded, neutral = load(sys.argv[1]), load_merged(sys.argv[2]), load(sys.argv[3])
+old = load_merged(sys.argv[4]) if len(sys.argv) > 4 else []
 print("### 13.1 Catalogue mutants (73) against the checks they are tagged for\n")
 print("| mutant | what it changes | expected | result (signature of the first violation) |\n|---|---|---|---|")
 n_ok = n_all = 0
@@ -28,7 +39,7 @@ for r in mut:
     print("| %s | %s | %s | %s |" % (r["id"], note, ", ".join(spec.get("expect", [])), "; ".join(cells)))
 print("\n%d of %d (mutant, expected check) pairs caught.\n" % (n_ok, n_all))
 
-print("### 13.2 Seeded changes from independent sub-agents (36) against all checks\n")
+print("### 13.2 Seeded changes from independent sub-agents (%d) against all checks\n" % len(seeded))
 print("`target` = the check of the property the change was written to break; `also` = other checks that report it. C17 was only run where it is the target.\n")
 print("| seed | what it changes / what it needs | target | also caught by | inconclusive (exit 2) |\n|---|---|---|---|---|")
 for r in seeded:
@@ -53,3 +64,15 @@ for r in neutral:
     ch = r.get("checks", {})
     bad = ["%s exit %d" % (p, c["exit"]) for p, c in ch.items() if c["exit"] != 0]
     print("| %s | %d | %s |" % (r["id"], len(ch), ", ".join(bad) if bad else "none"))
+
+if old:
+    print("\n### 13.4 Second-round seeds: the targeted check before and after the round\n")
+    print("`before` = the check as committed before the second round was read (commit bfd5a8c); `after` = the committed check.\n")
+    print("| seed | before | after |\n|---|---|---|")
+    new = {r["id"]: r for r in seeded}
+    for r in old:
+        sid = r["id"]; tgt = sid[:3]
+        b = r["checks"].get(tgt, {}).get("exit")
+        a = new.get(sid, {}).get("checks", {}).get(tgt, {}).get("exit")
+        f = lambda e: "caught" if e == 1 else ("missed" if e == 0 else "exit %s" % e)
+        print("| %s | %s | %s |" % (sid, f(b), f(a)))
